@@ -2,6 +2,7 @@ package mon
 
 import (
 	"fmt"
+	"math"
 	"math/rand/v2"
 	"os"
 	"sort"
@@ -155,6 +156,7 @@ func runC12(r *ev.Run) {
 			return
 		}
 		params := fmt.Sprintf("dim=%d M=%d efC=%d efS=%d", dim, M, efC, efS)
+		outliers := metric != comet.Cosine && ci%5 == 3
 		m := newVecModel(metric, dim)
 		ids := newIDGen(rng)
 		vg := newVecGen(rng, dim)
@@ -217,6 +219,10 @@ func runC12(r *ev.Run) {
 					rep(sig+suffix, what)
 				}, "hnsw.exact", full, m.live, m.live, func(id uint32) (float64, float64) {
 					d := trueDist(metric, q, m.raw[id])
+					if l := l2ref(q, m.raw[id]); l*l > 1e39 {
+						// far beyond what a float32 sum of squares can hold: the reported distance is +Inf (outlier cases)
+						return math.Inf(1), math.Inf(1)
+					}
 					return d, distTol(metric, dim, d)
 				}, r)
 				r.Count("probes:exact-regime-complete", 1)
@@ -244,6 +250,13 @@ func runC12(r *ev.Run) {
 			switch {
 			case (c < 5 || len(m.live) == 0) && len(m.resident) < 2*M:
 				id, v := ids.next(), vg.fresh()
+				if outliers && rng.IntN(4) == 0 {
+					// a legal, finite vector so far out that its squared distance to everything else overflows float32:
+					// it is reported at distance +Inf, and it is a live vector like any other
+					v = cloneF32(v)
+					v[rng.IntN(dim)] = float32(1+rng.IntN(5)) * 1e20 * float32(1-2*rng.IntN(2))
+					r.Count("ops:add-outlier-at-infinite-distance", 1)
+				}
 				hist = append(hist, histOp{Op: "add", ID: id, Vec: cloneF32(v)})
 				if err := idx.Add(*comet.NewVectorNodeWithID(id, cloneF32(v))); err != nil {
 					rep("hnsw.add-error", err.Error())
